@@ -489,3 +489,9 @@ def main(ctx):
     w = 8 if ctx.tier == 'quick' else 16
     ctx.pmap('hyp_shard', [('iter', k, n // w) for k in range(w)] + [('play', k, n // w) for k in range(w)] +
              [('type2', k, n // (8 * w)) for k in range(w)] + [('units', k, 2 * n // w) for k in range(w)])
+    # ticks just below 2**53 where seconds-per-tick is a power of two: every step of the conversion is exact in binary
+    # floating point, so the round trip has no excuse (round 14: second * 1e6 * tpb / tempo overflows the 53 bits)
+    for tpb, tempo in ((1, 1000000), (2, 1000000), (4, 1000000), (1, 2000000), (1, 4000000), (8, 1000000)):
+        for base in (2 ** 52, 2 ** 52 + 2 ** 40, 2 ** 53 - 16):
+            for tick in range(base, min(base + 8, 2 ** 53)):
+                ctx.check({'kind': 'units', 'tick': tick, 'tpb': tpb, 'tempo': tempo}, classes=('units-2^53',), sample=False)
